@@ -16,6 +16,7 @@ from mon import refbufr as R
 from mon import nested
 from mon.compare import td_of, opsig
 from mon.gen import cases
+from mon.checks.c06 import OPEN_SHAPES
 from mon.gen.shapes import SHAPES, EdgePolicy
 
 ID = 'C09'
@@ -230,6 +231,26 @@ def check_message(ctx, m, enc, spec, sigctx, ids, want_encode=True):
                                                       next((i for i, (a, b) in enumerate(zip(fl.values, fj[-2][-1][k])) if a != b), 'end')),
                         spec)
             break
+    # ---- "... or an attribute of its owner": the second appearances (virtual attributes) in the nested view of
+    # subset k sit under the owners that subset k's own flat attribute links name
+    if not spec.get('grey'):
+        from mon.checks.c07 import check_nested
+        links_all = td.bitmap_links_all_subsets
+        for k, nodes in enumerate(nodes_all):
+            lk = links_all[k] if k < len(links_all) else {}
+            if not lk:
+                continue
+            ctx.count('attribute_owner_checks')
+            try:
+                bad = check_nested(nodes, labels_all[k], [norm(v) for v in td.decoded_values_all_subsets[k]], dict(lk))
+            except Exception as e:
+                ctx.count('attribute_owner_check_unavailable')
+                continue
+            if bad and bad[0].startswith('nested/attribute-owner'):
+                ctx.violate('conservation/attribute-under-wrong-owner/' + sigctx,
+                            'nested view of subset %d shows attribute values under other owners than the flat links of that '
+                            'subset name: %s' % (k, bad[1][:300]), spec)
+                break
     # ---- node tree references every flat index exactly once (contract on TemplateData.wire's result)
     nsub_tree = 1 if td.is_compressed else td.n_subsets
     for k in range(nsub_tree):
@@ -312,7 +333,7 @@ def run(ctx):
         # mandatory shapes
         n = 0
         ncli = 0
-        for name, ids in SHAPES09 + list(SHAPES):
+        for name, ids in SHAPES09 + list(SHAPES) + [('c06-' + nm, i) for nm, i in OPEN_SHAPES]:
             for comp in (False, True):
                 for phase in range(3 if ctx.quick else 8):
                     n += 1
